@@ -109,8 +109,10 @@ def _search_blocks_for_fe(input_path: str, thread_idx: int, block_starts: List[i
                         try:
                             payload = cls()
                             if hasattr(payload, 'p1_time') or hasattr(payload, 'details'):
-                                payload.unpack(buffer=data, offset=i +
-                                               MessageHeader.calcsize(), message_version=header.message_version)
+                                # Deserialize from this message's bytes only: a payload shorter than its class expects
+                                # must fail to parse, not pick up the bytes that follow the message in the buffer.
+                                payload.unpack(buffer=data[i:i + header.get_message_size()],
+                                               offset=MessageHeader.calcsize(), message_version=header.message_version)
                                 p1_time = payload.get_p1_time()
                         except BaseException:
                             pass
